@@ -285,9 +285,13 @@ def replay_file(path: str):
         data = json.load(f)
     spec = get_spec(data["property"])
     spec.prepare()
-    res, err, ch = run_values(spec, data["choices"], data.get("forced"))
-    if err is not None:
-        return False, "harness error: " + err, None, data
+    # "repeat_in_process": the same history is run that many times in this process and the last one is judged
+    # (a second manager / client / recorder in a process that has had one before: state the code under test keeps on
+    # a class or a module survives the first)
+    for _ in range(max(1, int(data.get("repeat_in_process", 1)))):
+        res, err, ch = run_values(spec, data["choices"], data.get("forced"))
+        if err is not None:
+            return False, "harness error: " + err, None, data
     want = data["violation"]["sig"]
     vs = own_violations(spec, res)
     for v in vs:
@@ -304,8 +308,9 @@ def replay_file(path: str):
     return False, "violation not reproduced", res.digest, data
 
 
-def write_replay_from_summary(spec, d, v, path):
+def write_replay_from_summary(spec, d, v, path, repeat=1):
     data = {
+        "repeat_in_process": repeat,
         "forced": d.get("forced"),
         "property": spec.prop,
         "harness": spec.harness,
@@ -553,6 +558,25 @@ def run_property(prop: str, tier: str, base_seed: int, workers: int, budget_s: f
                     print(f"VIOLATION property={prop} replay={path}")
                     reported += 1
                     done = True
+        if not done:
+            # no candidate reproduces from a clean process on its own.  If the same history run twice in one clean
+            # process does (deterministically, twice), the code under test carries state from one manager / client /
+            # recorder of a process to the next one: that is reported, with a replay file that says so.
+            for d, v in by_sig[sig][:4]:
+                path = os.path.join(rdir, f"{prop}-{d['seed']}-{tag}.json")
+                write_replay_from_summary(spec, d, v, path, repeat=2)
+                if settle_replay(path):
+                    print(f"violation: {v['clause']}: {v['detail']}")
+                    print(f"  seed={d['seed']} (only when the same history has already run once in the same process: "
+                          f"the code under test keeps state across instances; replay file has repeat_in_process=2)")
+                    print(f"VIOLATION property={prop} replay={path}")
+                    reported += 1
+                    done = True
+                    break
+                try:
+                    os.remove(path)
+                except OSError:
+                    pass
         if not done:
             unreproducible.append((sig, len(by_sig[sig]), tried))
     if unreproducible and not reported:
